@@ -107,6 +107,18 @@ def judge_positive(item, text, tokens, out):
                 continue
             if not noloc and src is text:
                 n += reparse_spans(res, text, ts, fv, out, wit)
+                # trees are independent values: editing one in place (as inline visitors do) is invisible to the next parse
+                astproj.scribble(res, "<scribbled by an earlier caller>")
+                st2, res2 = try_parse(entry, text, ts, fv, False)
+                n += 1
+                if st2 == "err":
+                    out.setdefault(("C02", "parse/history/second-parse-raises/%s" % type(res2).__name__),
+                                   ["the same text no longer parses after an earlier tree was edited in place", dict(wit, error=repr(res2))])
+                else:
+                    ev2, pl2, bad2 = astproj.project(res2)
+                    if bad2 or ev2 != ev or pl2 != pl:
+                        out.setdefault(("C02", "parse/history/tree-depends-on-earlier-trees/%s" % (bad2[0] if bad2 else "differs")),
+                                       ["a freshly parsed tree shows edits made to a previously returned tree (shared mutable state)", wit])
     return n
 
 
